@@ -72,7 +72,7 @@ class JSONField(ABC):
         """
         d = self.__dict__.copy()
         for k in self.__dict__:
-            if d[k] is None or d[k] == 0:
+            if d[k] is None or (d[k] == 0 and not isinstance(d[k], float)):
                 d.pop(k)
         if len(d) == 0:
             return ''
@@ -102,7 +102,7 @@ class JSONField(ABC):
         """
         d = self.__dict__.copy()
         for k in self.__dict__:
-            if d[k] is None or d[k] == 0:
+            if d[k] is None or (d[k] == 0 and not isinstance(d[k], float)):
                 d.pop(k)
         if len(d) == 0:
             return None
